@@ -7,7 +7,7 @@ from lib import Result, RMODES, OMODES, model_call, run_sharded, e_fmt, Reader
 RULE = ('every pair of operand formats with n_word<=3 (quick) / <=5 (thorough), every code pair with divisor != 0, n_frac 0..n_word, rounding in {trunc, floor, around}, methods raw and repr; '
         'random format pairs with result word <=53 bits, extreme and random codes; operands up to 62 bits whose // and % result words are within 53 bits (x/y checked when its own word is). Checked on the implementation output with exact rationals: x/y exact when representable else one of the two '
         'neighbours (error < 1 LSB), no overflow with optimal sizing, x//y = floor(x/y), x%y = x - y*floor(x/y) with the divisor\'s sign, (x//y)*y + x%y == x, raw and repr agree on // and %; '
-        'result formats against the extracted Spec; (D) x/y into an imposed format (sizing same / largest / smallest, plain-number divisors under the default configuration) when the quotient lies inside it: exact or neighbour, no flag. Non-trivial = the quotient is not an integer multiple of the result LSB; distinct by formats, codes, method, rounding.')
+        'result formats against the extracted Spec; (D) x/y into an imposed format (sizing same / largest / smallest, plain-number divisors under the default configuration) when the quotient lies inside it: exact or neighbour, no flag; (E) // and % for formats with n_word<=5 whose fraction length is negative or exceeds the word. Non-trivial = the quotient is not an integer multiple of the result LSB; distinct by formats, codes, method, rounding.')
 ASSUMPTIONS = ['real operands, divisor != 0', 'the value (repr) method is exercised only with operands of at most 53 bits (it computes on the operands float values, which must be exact)']
 
 def fmts_small(nwmax):
@@ -85,6 +85,40 @@ def run_cases(cases, res, stratum):
             if mo['kind'] != 'ok' or mo['codes'] != [obs[key][1]] or mo['status'][:2] != obs[key][2][:2]:
                 res.fail(case, 'model Div.div_%s disagrees with the implementation although the property holds (%s)' % (case['method'], key), expected=str(mo)[:160], got=obs[key][1])
                 res.failures[-1]['no_input'] = True; break
+
+def odd_cases(rng, n):
+    """operand formats whose fraction length is negative or exceeds the word (so that the optimal result of // may need no
+    magnitude bit at all): x // y = floor, x % y, reconstruction"""
+    cases = []
+    while len(cases) < n:
+        def f():
+            nw = rng.randint(1, 5); return (rng.random() < 0.6, nw, rng.choice([-3, -2, -1, nw + 1, nw + 2, nw + 4, rng.randint(0, nw)]))
+        fxm, fym = f(), f()
+        lx, hx = S.fmt_bounds(fxm[0], fxm[1]); ly, hy = S.fmt_bounds(fym[0], fym[1])
+        cx, cy = rng.randint(lx, hx), rng.randint(ly, hy)
+        if cy == 0: continue
+        cases.append({'odd': True, 'x': list(fxm), 'cx': cx, 'y': list(fym), 'cy': cy})
+    return cases
+
+def run_odd(cases, res):
+    fx = lib.impl(); import numpy as np
+    for c in cases:
+        fxm, fym = tuple(c['x']), tuple(c['y'])
+        xv = Fraction(c['cx']) / Fraction(2) ** fxm[2]; yv = Fraction(c['cy']) / Fraction(2) ** fym[2]
+        try:
+            x = A.mk(fx, np, *fxm, c['cx']); y = A.mk(fx, np, *fym, c['cy'])
+            fl = x // y; md = x % y
+            got = (Fraction(lib.codes_of(fl)[0]) / Fraction(2) ** fl.n_frac, lib.status3(fl)[:2], Fraction(lib.codes_of(md)[0]) / Fraction(2) ** md.n_frac, lib.status3(md)[:2], int(fl.n_word), int(md.n_word))
+        except Exception as e:
+            res.fail(c, 'C09: // or %% of operands with an unusual fraction length raised %s' % lib.exc_name(e), got=str(e)[:200]); continue
+        res.count('E:unusual-fraction-lengths', key=repr(c), nontrivial=True)
+        res.sample(c)
+        want_fl = math.floor(xv / yv); want_md = xv - yv * want_fl
+        if got[4] > 53 or got[5] > 53: continue
+        if got[0] != want_fl or got[1] != (False, False):
+            res.fail(c, 'C09: x//y is not floor(x/y) (unusual fraction lengths)', expected=want_fl, got=(str(got[0]), got[1])); continue
+        if got[2] != want_md or got[3] != (False, False):
+            res.fail(c, 'C09: x%y is not x - y*floor(x/y) (unusual fraction lengths)', expected=str(want_md), got=(str(got[2]), got[3])); continue
 
 def imposed_cases(rng, n):
     """x / y into an imposed result format: sizing same / largest / smallest, or a plain-number divisor under the default
@@ -203,6 +237,7 @@ def shard(shard, nshards, rng, tier, extra):
         cases.append((fxm, cx, fym, cy, meth, rng.choice(['trunc', 'floor', 'around'])))
     run_cases(cases, res, 'C:wide-operands-small-results')
     run_imposed(imposed_cases(rng, (1500 if tier == 'quick' else 40000) // nshards), res)
+    run_odd(odd_cases(rng, (1500 if tier == 'quick' else 40000) // nshards), res)
     res.exhaustive = True
     return res
 
@@ -216,5 +251,7 @@ def replay(payload):
     c = payload['case']; res = Result()
     if 'sizing' in c:
         run_imposed([c], res); return {'holds': not res.failures, 'failures': res.failures}
+    if c.get('odd'):
+        run_odd([c], res); return {'holds': not res.failures, 'failures': res.failures}
     run_cases([(tuple(c['x']), c['cx'], tuple(c['y']), c['cy'], c['method'], c['rounding'])], res, 'replay')
     return {'holds': not res.failures, 'failures': res.failures}
